@@ -362,7 +362,7 @@ CHECKS = {
               "distinct by (layout, ending events, fault multiset, labels)."),
         assumptions=["'current member id' = the id returned by the last JoinGroup exchange before Close if that exchange succeeded and the coordinator still lists the member",
                      "error codes are injected only into APIs on which Kafka documents them"],
-        units=[dict(run="TestGenerations", checks_quick=250, checks_thorough=1500, shards_quick=4, shards_thorough=16, timeout=2400)],
+        units=[dict(run="TestGenerations", checks_quick=190, checks_thorough=1500, shards_quick=4, shards_thorough=16, timeout=2400)],
     ),
     "C09": dict(
         pkg="props/c09", level="exploration",
